@@ -674,3 +674,15 @@ Proof.
   intros H. destruct (H (mkStream ([36; 4; 160; 128; 1; 2] ++ [3]) 0 true 0) [3] eq_refl) as (s' & Hr & _).
   vm_compute in Hr. discriminate Hr.
 Qed.
+
+(* an untagged ANY as alternative of an untagged CHOICE (the entry point is re-entered past the header, without
+   resetting the marked position): the ANY comes back with its identifier and length octets, the run is clean,
+   every strict prefix is insufficient *)
+Example any_choice_alternative_streams :
+  let T := TSeqOf (TChoice [TInt; TAny]) in
+  let v := VList [VChoice 1 (VAny [4; 1; 9]); VChoice 0 (VInt 5)] in
+  encode BER true 0 T v = Ok [48; 6; 4; 1; 9; 2; 1; 5]
+  /\ decode_with BER 20 (Some T) ([48; 6; 4; 1; 9; 2; 1; 5] ++ [7]) = Ok (DV T v, [7])
+  /\ clean_run (dec_item BER 20 (Some T)) (mkStream [48; 6; 4; 1; 9; 2; 1; 5; 7] 0 true 0) = true
+  /\ all_cuts BER 20 T [48; 6; 4; 1; 9; 2; 1; 5] = true.
+Proof. vm_compute. repeat split; reflexivity. Qed.
